@@ -24,7 +24,7 @@ func registerC01() {
 			"splices, truncation, extension, header edits, definition edits, record-header edits, size lies; CRC recomputed for half) of device files and model streams, each fed to the six " +
 			"entry points under three chunkers. Family monsters: well-formed streams whose definitions have up to 255 fields and 255 developer fields of up to 255 bytes, half of them with a total record size placed at a 16-bit boundary (65535, 65536, 65537, 64 KiB +- 300, 128 KiB - 1100...), under whole-buffer and short-read chunkers. Family sizes: valid and mutated small files whose header data-size field is set to boundary values (0, 1, the true size +-k, 2^31-1, 2^31, 2^32-1, ...) with and without matching CRCs, through the six entry points. The mutants, multidefs and sizes families are run a second time in a GOARCH=386 binary (32-bit int) when the host can execute it. Family zones: activity files whose local timestamps are every quarter hour from -30 h to +30 h (and seconds to either side, and far-out values) away from the UTC reference. Family devdata: streams whose developer fields are announced by developer_data_id and field_description messages (base type id: any byte). Family multidefs: PRNG streams of 1-4 definitions with 1-8 ARBITRARY field definitions each (any field number, size, base byte; " +
 			"developer-field lists; known and unknown messages; occasionally an illegal arch byte) followed by data records of exactly the defined sizes (some behind compressed headers), " +
-			"framed with correct CRCs, decoded with and without options (formatting logger, unknown lists) under two chunkers. family scratch: records that leave no zero byte in any buffer a decoder may keep (255 native / developer definition entries, 255-byte fields), then each string field of the profile at sizes 1-255 without terminator, four entry points, three chunkers. A case is one stream; in family fielddefs each is distinct by construction and counted non-trivial because it reaches the definition validator; " +
+			"framed with correct CRCs, decoded with and without options (formatting logger, unknown lists) under two chunkers. family scratch: records that leave no zero byte in any buffer a decoder may keep (255 native / developer definition entries, 255-byte fields), then each string field of the profile at sizes 1-255 without terminator, four entry points, three chunkers. family chain-leftovers: chains whose first member ends with all 16 local message types defined (known and unknown messages, developer fields, both byte orders) and whose second member has records - normal and compressed headers - on slots it never defined itself, before / between / after its file_id definition and record, through DecodeChained with and without options and alone through every entry point. A case is one stream; in family fielddefs each is distinct by construction and counted non-trivial because it reaches the definition validator; " +
 			"mutants are distinct by digest",
 		Assume:        []string{"a hang is decided logically (more than 10000 reads after the input ended) or by the doubly-confirmed wall-clock watchdog"},
 		MinNontrivial: 1000000,
@@ -38,6 +38,7 @@ func registerC01() {
 			{Name: "zones", N: func(t string) uint64 { return uint64(len(zoneGridOffsets())) * 2 }, Run: c01Zones},
 			{Name: "devdata", N: func(t string) uint64 { return tierN(t, 20000, 600000) }, Run: c01DevData},
 			{Name: "scratch", N: func(t string) uint64 { return tierN(t, 6000, 200000) }, Run: c01Scratch},
+			{Name: "chain-leftovers", N: func(t string) uint64 { return tierN(t, 6000, 200000) }, Run: c01ChainLeftovers},
 		},
 		Exhaustive: func(t string) bool { return true },
 		Finish: func(c *lib.Ctx, cov map[string]interface{}) {
@@ -835,4 +836,100 @@ func c01Monsters(c *lib.Ctx, idx uint64) {
 		c.Count("monster_record_10KB_or_more", 1)
 	}
 	c.Nontrivial(b[:minInt(len(b), 4096)], []byte(fmt.Sprint(len(b))))
+}
+
+// c01ChainLeftovers (round 13): a chain whose first member ends with all 16 local message types
+// defined (profile messages and messages the profile does not know, some with developer
+// fields, both byte orders), followed by a member that uses slots it never defined itself: data
+// records (normal and compressed headers) on other slots than the one its file_id definition
+// sits on, before and after the file_id record. Whatever a decoder keeps between the members of
+// a chain, the second member is a stream with records on undefined slots - an error, never a
+// panic - and the same holds for that member alone through every entry point.
+func c01ChainLeftovers(c *lib.Ctx, idx uint64) {
+	rng := lib.NewRand("C01.chain-leftovers", idx)
+	a := lib.NewPlanGen(rng, lib.GenOpts{FileType: []byte{4, 6, 32, 15}[idx%4], Records: 6 + rng.Intn(12), Locals: 1 + rng.Intn(16), Unknown: 40, BigEndian: 30, Compressed: 20, HeaderSize: []byte{14, 12}[rng.Intn(2)]}).Fill()
+	known := lib.KnownMesgs()
+	for _, sl := range rng.Perm(16) {
+		d := ref.Record{IsDef: true, Local: byte(sl), Arch: byte(rng.Intn(2))}
+		if rng.Chance(1, 2) {
+			d.Global = 0xFF00 | uint16(rng.Intn(256))
+		} else {
+			d.Global = known[rng.Intn(len(known))]
+		}
+		if d.Global == 0 {
+			d.Global = 20
+		}
+		for k := rng.Intn(4); k > 0; k-- {
+			d.Fields = append(d.Fields, ref.FieldDef{Num: byte(200 + rng.Intn(50)), Size: byte(1 + rng.Intn(4)), Base: 0x0D})
+		}
+		if rng.Chance(1, 4) {
+			d.HasDev = true
+			d.Dev = append(d.Dev, ref.DevDef{Num: byte(rng.Intn(4)), Size: byte(1 + rng.Intn(3)), Idx: 0})
+		}
+		a.Records = append(a.Records, d)
+	}
+	s1 := byte(rng.Intn(16))
+	stray := func() ref.Record {
+		sl := byte(rng.Intn(16))
+		for sl == s1 {
+			sl = byte(rng.Intn(16))
+		}
+		r := ref.Record{Local: sl}
+		if rng.Chance(1, 4) {
+			r.Local, r.Compressed, r.TimeOffset = sl&3, true, byte(rng.Intn(32))
+		}
+		for k := rng.Intn(4); k > 0; k-- {
+			r.Data = append(r.Data, rng.Bytes(1+rng.Intn(6)))
+		}
+		return r
+	}
+	b := &ref.Plan{HeaderSize: []byte{14, 12}[rng.Intn(2)], Proto: []byte{0x20, 0x10}[rng.Intn(2)], ProfVer: 2000 + uint16(rng.Intn(300))}
+	fidDef := ref.Record{IsDef: true, Local: s1, Global: 0, Fields: []ref.FieldDef{{Num: 0, Size: 1, Base: 0}}}
+	fid := ref.Record{Local: s1, Data: [][]byte{{[]byte{4, 6, 32, 15}[rng.Intn(4)]}}}
+	switch rng.Intn(4) {
+	case 0: // the stray record comes first of all
+		b.Records = append(b.Records, stray(), fidDef, fid)
+	case 1: // between the file_id definition and its record
+		b.Records = append(b.Records, fidDef, stray(), fid)
+	case 2: // after the file_id
+		b.Records = append(b.Records, fidDef, fid, stray())
+	default: // no definition at all in this member
+		b.Records = append(b.Records, stray(), stray())
+	}
+	for k := rng.Intn(3); k > 0; k-- {
+		b.Records = append(b.Records, stray())
+	}
+	ab, bb := a.Bytes(), b.Bytes()
+	chain := append(append([]byte{}, ab...), bb...)
+	if rng.Chance(1, 3) {
+		chain = append(chain, ab...)
+	}
+	c.SetInflight(chain)
+	for oi, opts := range [][]fit.DecodeOption{nil, optionList(7, &countingLogger{}, idx)} {
+		for _, ch := range []lib.Chunker{{Kind: "whole"}, {Kind: "rand", Size: 9, R: rng}} {
+			var files []*fit.File
+			var err error
+			o := lib.Guard(func() { files, err = fit.DecodeChained(lib.NewReader(chain, ch), opts...) })
+			c.Eval()
+			if o.Panicked || o.Hang {
+				c.Violation(chain, "DecodeChained (option set %d, %s reads) panicked/hung (hang=%v) on a chain whose second member has records on slots it never defined: %s\n%s", oi, ch, o.Hang, o.Panic, o.Stack)
+				return
+			}
+			if err == nil {
+				c.Count("chains_accepted", 1)
+			} else {
+				c.Count("chains_rejected", 1)
+			}
+			_ = files
+		}
+	}
+	for _, ep := range lib.EntryPoints {
+		o := lib.Guard(func() { lib.Call(ep, lib.NewReader(bb, lib.Chunker{Kind: "whole"})) })
+		c.Eval()
+		if o.Panicked || o.Hang {
+			c.Violation(bb, "%s panicked/hung (hang=%v) on a stream with records on undefined slots: %s\n%s", ep, o.Hang, o.Panic, o.Stack)
+			return
+		}
+	}
+	c.Nontrivial(chain)
 }
